@@ -87,6 +87,7 @@ template <class X> struct Hist {
             int op = r.below(10);
             c->stage((uint64_t)st * 16 + (uint64_t)op);
             c->attribute("C07");
+            c->note(Str(X::tag()) + " hist: " + (trace.size() > 380 ? trace.substr(trace.size() - 380) : trace));
             if (op <= 2 || pick_live(false) < 0) {           // parse
                 int d = pick_dest(); if (d < 0) continue;
                 UriGenOpts o; o.dotHeavy = r.chance(2, 3); o.maxSegs = 5; o.longSeg = false;
